@@ -3,6 +3,118 @@ use crate::wire::*;
 use num_bigint::{BigInt, BigUint};
 use num_traits::{CheckedAdd, CheckedSub};
 
+// ---------------------------------------------------------------------------------------------
+// api-coverage: the scalar addition / subtraction forms ("every BigUint/BigInt addition and subtraction"): leaves
+// `Add/Sub<u32|u64|u128> for BigUint`, `AddAssign/SubAssign<…>`, `u32|u64|u128 - BigUint`, the BigInt leaves for
+// unsigned and signed scalars, in their by-value form; the small types go through the promotion impls first.
+// `which`: 0 `x + v`, 1 `v + x`, 2 `x += v`, 3 `x - v`, 4 `v - x`, 5 `x -= v`.
+use core::ops::{Add, AddAssign, Sub, SubAssign};
+
+fn sca_u<T>(x: BigUint, v: T, which: u8) -> BigUint
+where
+    T: Copy + Add<BigUint, Output = BigUint> + Sub<BigUint, Output = BigUint>,
+    BigUint: Add<T, Output = BigUint> + Sub<T, Output = BigUint> + AddAssign<T> + SubAssign<T>,
+{
+    match which {
+        0 => x + v,
+        1 => v + x,
+        2 => {
+            let mut y = x;
+            y += v;
+            y
+        }
+        3 => x - v,
+        4 => v - x,
+        _ => {
+            let mut y = x;
+            y -= v;
+            y
+        }
+    }
+}
+
+fn sca_i<T>(x: BigInt, v: T, which: u8) -> BigInt
+where
+    T: Copy + Add<BigInt, Output = BigInt> + Sub<BigInt, Output = BigInt>,
+    BigInt: Add<T, Output = BigInt> + Sub<T, Output = BigInt> + AddAssign<T> + SubAssign<T>,
+{
+    match which {
+        0 => x + v,
+        1 => v + x,
+        2 => {
+            let mut y = x;
+            y += v;
+            y
+        }
+        3 => x - v,
+        4 => v - x,
+        _ => {
+            let mut y = x;
+            y -= v;
+            y
+        }
+    }
+}
+
+/// scalar token `<type>:<decimal>`, parsed into exactly that primitive type
+macro_rules! scalar_dispatch {
+    ($tok:expr, |$v:ident| $body:expr, unsigned) => {{
+        let (ty, s) = $tok.split_once(':')?;
+        match ty {
+            "u8" => { let $v = s.parse::<u8>().ok()?; $body }
+            "u16" => { let $v = s.parse::<u16>().ok()?; $body }
+            "u32" => { let $v = s.parse::<u32>().ok()?; $body }
+            "u64" => { let $v = s.parse::<u64>().ok()?; $body }
+            "u128" => { let $v = s.parse::<u128>().ok()?; $body }
+            "usize" => { let $v = s.parse::<usize>().ok()?; $body }
+            _ => return None,
+        }
+    }};
+    ($tok:expr, |$v:ident| $body:expr, all) => {{
+        let (ty, s) = $tok.split_once(':')?;
+        match ty {
+            "u8" => { let $v = s.parse::<u8>().ok()?; $body }
+            "u16" => { let $v = s.parse::<u16>().ok()?; $body }
+            "u32" => { let $v = s.parse::<u32>().ok()?; $body }
+            "u64" => { let $v = s.parse::<u64>().ok()?; $body }
+            "u128" => { let $v = s.parse::<u128>().ok()?; $body }
+            "usize" => { let $v = s.parse::<usize>().ok()?; $body }
+            "i8" => { let $v = s.parse::<i8>().ok()?; $body }
+            "i16" => { let $v = s.parse::<i16>().ok()?; $body }
+            "i32" => { let $v = s.parse::<i32>().ok()?; $body }
+            "i64" => { let $v = s.parse::<i64>().ok()?; $body }
+            "i128" => { let $v = s.parse::<i128>().ok()?; $body }
+            "isize" => { let $v = s.parse::<isize>().ok()?; $body }
+            _ => return None,
+        }
+    }};
+}
+
+fn scalar_op(op: &str, a: &[&str]) -> Option<String> {
+    let w: u8 = match &op[2..] {
+        "add_s" => 0,
+        "s_add" => 1,
+        "add_assign_s" => 2,
+        "sub_s" => 3,
+        "s_sub" => 4,
+        "sub_assign_s" => 5,
+        _ => return None,
+    };
+    let (p, q) = match a {
+        [p, q] => (*p, *q),
+        _ => return None,
+    };
+    // scalar-left forms carry the scalar first
+    let (x, tv) = if w == 1 || w == 4 { (q, p) } else { (p, q) };
+    Some(if op.starts_with("u.") {
+        let x = parse_u(x)?;
+        ok_u(&scalar_dispatch!(tv, |v| sca_u(x, v, w), unsigned))
+    } else {
+        let x = parse_i(x)?;
+        ok_i(&scalar_dispatch!(tv, |v| sca_i(x, v, w), all))
+    })
+}
+
 pub fn handle(op: &str, a: &[&str]) -> Option<String> {
     Some(match (op, a) {
         ("u.add", [x, y]) => ok_u(&(&parse_u(x)? + &parse_u(y)?)),
@@ -97,6 +209,16 @@ pub fn handle(op: &str, a: &[&str]) -> Option<String> {
         }
         ("i.checked_add", [x, y]) => opt_i(&parse_i(x)?.checked_add(&parse_i(y)?)),
         ("i.checked_sub", [x, y]) => opt_i(&parse_i(x)?.checked_sub(&parse_i(y)?)),
+        // api-coverage: the TRAIT impls `CheckedAdd for BigInt` / `CheckedSub for BigInt` (src/bigint/addition.rs,
+        // subtraction.rs: `Some(self.add(v))`); the method calls above resolve to the inherent `BigInt::checked_*`
+        ("i.checked_add_t", [x, y]) => opt_i(&CheckedAdd::checked_add(&parse_i(x)?, &parse_i(y)?)),
+        ("i.checked_sub_t", [x, y]) => opt_i(&CheckedSub::checked_sub(&parse_i(x)?, &parse_i(y)?)),
+        // api-coverage: scalar addition / subtraction forms (see `scalar_op`)
+        (
+            "u.add_s" | "u.s_add" | "u.add_assign_s" | "u.sub_s" | "u.s_sub" | "u.sub_assign_s" | "i.add_s" | "i.s_add"
+            | "i.add_assign_s" | "i.sub_s" | "i.s_sub" | "i.sub_assign_s",
+            [_, _],
+        ) => return scalar_op(op, a),
         #[cfg(num_bigint_verif)]
         ("raw.add2", [x, y]) => {
             let mut a = parse_limbs(x)?;
